@@ -183,7 +183,6 @@ func (e *wsSessEnv) unary(ctx context.Context, full string, req *dynamicpb.Messa
 	return dynamicpb.NewMessage(repDesc()), nil
 }
 
-
 func newWsSessEnv(opts []string) (*wsSessEnv, error) {
 	e := &wsSessEnv{recs: map[string]*wsSessRec{}, done: map[string]chan string{}}
 	files, sds, err := BuildFiles([]ServiceSpec{testService()})
